@@ -33,9 +33,9 @@ func TestVerif(t *testing.T) {
 	queue.VerifSetDontRecover(false)
 	mlog.DefaultLogger.Out = mlog.NopOutput{}
 
-	nWire := r.N(100, 10000)  // x 30 chains
-	nQueue := r.N(600, 60000) // 1..4 recipients x up to 3 attempts
-	nLaw := r.N(20, 1500)     // x 500 chains
+	nWire := r.N(600, 10000)  // x 30 chains
+	nQueue := r.N(3000, 60000) // 1..4 recipients x up to 3 attempts
+	nLaw := r.N(120, 1500)     // x 500 chains
 	for i := 0; i < nWire; i++ {
 		r.Run(wireBase+i, fmt.Sprintf("wire-%d", i), func(c *rep.Case) { runWireCase(t, r, c, wireBase+i) })
 	}
@@ -46,8 +46,8 @@ func TestVerif(t *testing.T) {
 	// TIME_WAIT for a minute; 70 000 of them in 2.5 minutes exhausted the
 	// ephemeral ports of the machine (bind :0 failed for 3 000 cases), hence the
 	// moderate thorough size of this layer.
-	nRemoteQ := r.N(250, 8000)
-	nRemoteW := r.N(60, 2000) // x 6 transactions
+	nRemoteQ := r.N(1200, 8000)
+	nRemoteW := r.N(300, 2000) // x 6 transactions
 	for i := 0; i < nRemoteQ; i++ {
 		r.Run(remoteQBase+i, fmt.Sprintf("remote-queue-%d", i), func(c *rep.Case) { runRemoteQueueCase(t, r, c, remoteQBase+i) })
 	}
